@@ -784,6 +784,10 @@ def oracle(sc, ex):
                         viol.append(('%s yields an identity that was never issued: %s %s' % (where, r['uid'], r['tokens']),
                                      'F-C09d' if shift else None))
                         continue
+            if unchanged is not None and not same_helper and unchanged['cfg']['secret'] == cfg['secret'] and unchanged['cfg']['alg'] == cfg['alg'] \
+                    and unchanged['eip'] != eip and not same_v4_octets(unchanged['eip'], eip) and r['r'] != 'none':
+                viol.append(('%s accepts a ticket issued for address %r when it is presented from the different address %r' % (
+                    where, unchanged['eip'], eip), None))
             if unchanged is not None and same_helper:
                 if live:
                     if not (r['r'] == 'id' and r['uid'] == unchanged['uid'] and r['tokens'] in tokens_repr(unchanged['tokens'])
@@ -893,7 +897,25 @@ TOK_OK = ['a', 'admin', 'T1', 'x-y', 'p+q_r', 'abc\n', 'Z']
 TOK_BAD = ['', '1a', 'a b', 'é', 'a,b', 'a!', None, 'a\n\n', '\n', 'a|b']
 SECRETS = ['secret', 's3cr3t!', '', '0', '11', 'ключ', 'k' * 64, '0000', 'se\x00c']
 IPS4 = ['1.2.3.4', '0.0.0.0', '255.255.255.255', '10.0.0.1', '58.58.49.49']
-IPS6 = ['::1', '::11', '2001:db8::1', 'fe80::1%eth0', '::']
+IPS6 = ['::1', '::11', '2001:db8::1', 'fe80::1%eth0', '::', '::ffff:1.2.3.4', '0:0:0:0:0:0:0:1', '2001:DB8::1', '[::1]', '::ffff:10.0.0.1']
+# pairs of DISTINCT address strings that denote 'the same host' in another notation (IPv4-mapped, zero-compressed vs
+# expanded, upper/lower hex, bracketed, zone id, leading zeros / int() spellings of IPv4 octets)
+ALIAS_PAIRS = [('1.2.3.4', '::ffff:1.2.3.4'), ('1.2.3.4', '::FFFF:1.2.3.4'), ('1.2.3.4', '::ffff:102:304'), ('10.0.0.1', '::ffff:10.0.0.1'),
+               ('1.2.3.4', '0:0:0:0:0:ffff:1.2.3.4'), ('255.255.255.255', '::ffff:255.255.255.255'), ('0.0.0.0', '::ffff:0.0.0.0'),
+               ('::1', '0:0:0:0:0:0:0:1'), ('::1', '0000:0000:0000:0000:0000:0000:0000:0001'), ('::1', '[::1]'), ('::', '0::0'),
+               ('2001:db8::1', '2001:DB8::1'), ('2001:db8::1', '2001:0db8:0:0:0:0:0:1'), ('2001:db8::1', '2001:db8:0::1'),
+               ('fe80::1', 'fe80::1%eth0'), ('::ffff:1.2.3.4', '::ffff:0102:0304'),
+               ('1.2.3.4', '001.002.003.004'), ('1.2.3.4', '1.2.3.04'), ('10.0.0.1', '010.0.0.1'), ('1.2.3.4', '1.2.3.4 '), ('10.0.0.1', '1_0.0.0.1')]
+
+
+def same_v4_octets(a, b):
+    """both dotted, and the same octet values (the digest signs chr(int(part)), not the spelling)"""
+    if ':' in a or ':' in b:
+        return False
+    try:
+        return [int(x) for x in a.split('.')] == [int(x) for x in b.split('.')]
+    except ValueError:
+        return False
 IPS_BAD = ['abc', '1.2.3', '256.1.1.1', '1.2.3.4.5', '', '1.2.3.-4', '1.2.3. 4', '1_0.2.3.4']
 HOSTS = ['example.com', 'www.example.com', 'a.b.example.com', 'localhost', 'example.com:8080', 'x.y.z.w.example.org:80']
 CLOCKS = [0, 1, 10, 255, 256, 1000, 65535, 99999999, 1759276800, 1759276801, 2 ** 32 - 1, 0xF0000001, 2 ** 31, 123456789]
@@ -1008,6 +1030,8 @@ def gen_multi(rng):
         helpers.append(gen_cfg(rng, cfgA))
     ipA = gen_ip(rng)
     ipB = rng.choice([i for i in IPS4 + IPS6 if i != ipA])
+    if rng.random() < 0.3:
+        ipA, ipB = rng.choice(ALIAS_PAIRS + [(y, x) for x, y in ALIAS_PAIRS])
     host = rng.choice(HOSTS)
     t0 = rng.choice([c for c in CLOCKS if c < 2 ** 32 - 200])
     issues = [{'cfg': cfgA, 'h': rng.choice([0, None]), 'ip': ipA, 'host': host, 'clock': t0, 'uid': gen_uid(rng), 'tokens': gen_tokens(rng), 'max_age': None},
@@ -1039,7 +1063,8 @@ def small_scope_histories():
             'max_age': None, 'http_only': False, 'path': '/', 'wild': True, 'parent': False, 'alg': 'md5', 'domain': None, 'samesite': 'Lax'}
     import itertools
     for over, ipA, ipB in (({}, '1.2.3.4', '1.2.3.5'), ({'alg': 'sha256', 'timeout': None, 'reissue': 0}, '::1', '2001:db8::1'),
-                           ({'include_ip': False}, '1.2.3.4', '10.0.0.1'), ({'timeout': 0, 'secret': 'k' * 64}, '10.0.0.1', '::1')):
+                           ({'include_ip': False}, '1.2.3.4', '10.0.0.1'), ({'timeout': 0, 'secret': 'k' * 64}, '10.0.0.1', '::1'),
+                           ({}, '1.2.3.4', '::ffff:1.2.3.4'), ({'alg': 'sha1'}, '::ffff:1.2.3.4', '1.2.3.4'), ({'timeout': None}, '::1', '0:0:0:0:0:0:0:1')):
         cfg = dict(base); cfg.update(over)
         issues = [{'cfg': cfg, 'h': 0, 'ip': ipA, 'host': 'example.com', 'clock': 1000, 'uid': {'t': 'str', 'v': 'alice'}, 'tokens': ['a'], 'max_age': None},
                   {'cfg': cfg, 'h': None, 'ip': ipB, 'host': 'example.com', 'clock': 1000, 'uid': {'t': 'int', 'v': '7'}, 'tokens': [], 'max_age': None}]
@@ -1050,10 +1075,25 @@ def small_scope_histories():
     return out
 
 
+def small_scope_aliases():
+    """every alias pair, both directions, issue at A -> identify the unchanged cookie from A and from B (fresh helpers)"""
+    out = []
+    base = {'secret': 'secret', 'name': 'auth_tkt', 'secure': False, 'include_ip': True, 'timeout': None, 'reissue': None,
+            'max_age': None, 'http_only': False, 'path': '/', 'wild': True, 'parent': False, 'alg': 'md5', 'domain': None, 'samesite': 'Lax'}
+    for a, b in ALIAS_PAIRS + [(y, x) for x, y in ALIAS_PAIRS]:
+        for alg in ('md5', 'sha256'):
+            cfg = dict(base, alg=alg)
+            iss = {'cfg': cfg, 'ip': a, 'host': 'example.com', 'clock': 1759276800, 'uid': {'t': 'str', 'v': 'alice'}, 'tokens': ['a'], 'max_age': None}
+            for ip in (b, a):
+                out.append({'kind': 'alias-small-scope', 'issues': [iss], 'cookie': {'base': 0, 'edits': [], 'quote': 'webob'}, 'cfg': cfg,
+                            'ip': ip, 'host': 'example.com', 'now': 1759276801, 'clock': 1759276801, 'ops': [{'op': 'identify'}]})
+    return out
+
+
 def gen_scenario(rng, kind=None):
     kind = kind or rng.choice(['valid', 'valid', 'valid', 'boundary', 'boundary', 'edit', 'edit', 'edit', 'splice', 'tsfield',
                                'other_helper', 'arbitrary', 'mint', 'history', 'history', 'nocookie', 'badip', 'quoting',
-                               'shift', 'multi', 'multi', 'multi', 'ticket', 'ticket', 'ticket', 'rawid', 'rawid'])
+                               'shift', 'multi', 'multi', 'multi', 'ticket', 'ticket', 'ticket', 'rawid', 'rawid', 'alias', 'alias'])
     if kind == 'multi':
         return gen_multi(rng)
     if kind == 'ticket':
@@ -1140,6 +1180,18 @@ def gen_scenario(rng, kind=None):
         toks = rng.choice([[], ['a'], ['a', 'b'], ['', 'a'], ['a b'], ['é'], ['a', '', 'b'], ['1x'], ['x%41'], ['a+b', 'c']])
         sc['issues'] = [{'cfg': cfgA, 'ip': ipA, 'host': host, 'clock': t0, 'mint': {'userid': uid, 'tokens': toks, 'user_data': ud}}]
         sc['ops'] = rng.choice([[{'op': 'identify'}], [{'op': 'identify'}, {'op': 'identify'}], gen_ops(rng)])
+    elif kind == 'alias':
+        # the ticket is bound to address A; the same cookie comes from B, another spelling of 'the same host'
+        a, b = rng.choice(ALIAS_PAIRS)
+        if rng.random() < 0.5:
+            a, b = b, a
+        cfg = dict(cfgA, include_ip=True, timeout=rng.choice([None, 0, 100]))
+        sc['issues'][0]['cfg'] = cfg
+        sc['issues'][0]['ip'] = a
+        sc['cfg'], sc['ip'] = cfg, rng.choice([b, b, b, a])
+        sc['now'] = sc['clock'] = min(t0 + rng.choice([0, 1]), 2 ** 32 - 1)
+        sc['cookie']['quote'] = rng.choice(['verbatim', 'webob'])
+        sc['ops'] = rng.choice([[{'op': 'identify'}], [{'op': 'identify'}, {'op': 'identify'}]])
     elif kind == 'rawid':
         # a helper with identity userid_type_encoders: the raw text id reaches the wire through remember()
         sc['issues'][0]['raw'] = True
@@ -1345,10 +1397,12 @@ def run(ctx):
     hist = small_scope_histories()
     if ctx.tier == 'quick':
         rng.shuffle(hist)
-        hist = hist[:300]
+        hist = hist[:450]
     scenarios += hist
     tks = small_scope_tickets()
     scenarios += tks
+    als = small_scope_aliases()
+    scenarios += als
     res = {'evals': 0, 'agree': 0, 'mism': [], 'viol': [], 'keys': set()}
     nontriv_total = 0
     CH = 4000
@@ -1375,8 +1429,9 @@ def run(ctx):
             'notes': ['%d corpus scenarios, %d generated, %d single-character edits of three issued tickets (%s)' % (
                 ncorpus, n, len(ex_edits), 'all' if ctx.tier == 'thorough' else 'a sample'),
                 'every request of a scenario (issuing ones too) is one driver line; first-hash inputs are compared byte for byte',
-                '%d small-scope histories (all sequences of <= 3 requests over %d request kinds x 4 configurations on ONE long-lived helper; %s) plus the random multi-request histories: every request must get the answer of a fresh helper' % (len(hist), len(REQ_KINDS), 'all' if ctx.tier == 'thorough' else 'a sample'),
-                '%d ticket-level small-scope cases (20 awkward raw userids x 6 token lists x 6 user data texts: AuthTicket.cookie_value -> parse_ticket must return exactly what was signed) plus the random ticket-level / raw-id-helper streams' % len(tks)],
+                '%d small-scope histories (all sequences of <= 3 requests over %d request kinds x 7 configurations (3 with address-alias pairs) on ONE long-lived helper; %s) plus the random multi-request histories: every request must get the answer of a fresh helper' % (len(hist), len(REQ_KINDS), 'all' if ctx.tier == 'thorough' else 'a sample'),
+                '%d ticket-level small-scope cases (20 awkward raw userids x 6 token lists x 6 user data texts: AuthTicket.cookie_value -> parse_ticket must return exactly what was signed) plus the random ticket-level / raw-id-helper streams' % len(tks),
+                '%d address-alias cases (every pair of distinct spellings of one host x both directions x 2 algorithms: the ticket issued for A must verify from A and not from B unless both are dotted with equal octet values)' % len(als)],
             'assumptions': ['hash functions are uninterpreted in the model: hashlib answers through a recorded table',
                             'the Unicode database (whitespace / decimal digit of non-ASCII characters) is a table from unicodedata',
                             'WebOb parses the Cookie header and serialises Set-Cookie: exercised, not modelled',
@@ -1393,6 +1448,7 @@ def search(ctx):
     rng = ctx.rng
     dist = new_dist()
     scs = [c for _, c in ctx.corpus()]
+    scs += small_scope_aliases()
     scs += small_scope_tickets()
     scs += small_scope_histories()
     scs += exhaustive_edits(rng, 100000)
